@@ -24,9 +24,9 @@ import (
 // an outer open cursor: stale data instead of an error.
 
 func init() {
-	Register(&Rule{ID: "R-CUR-7", Props: []string{"C16", "C15"}, Floor: 44,
+	Register(&Rule{ID: "R-CUR-7", Props: []string{"C16", "C15"}, Floor: 30,
 		Doc:      "for every inner→outer lookup loop over ReferenceScope.Blocks/.nodes (the non-visit-all loops of R-SCP-1) and its per-element call: the callee's possible results are enumerated from its returns (nil, each sentinel error, each error constructor; or true/false for a boolean hit test) and the code after the call is evaluated for each of them: a hit (nil / true) leaves the loop, 'not declared here' (the result the callee returns where its own lookup failed; the only non-nil kind if there is just one) goes on to the next block, EVERY other error the callee can return leaves the loop with a non-nil error",
-		Controls: []string{"CtlLookupFallsThroughOnAnyError", "CtlLookupFetchFallsThrough"},
+		Controls: []string{"CtlLookupFallsThroughOnAnyError", "CtlLookupFetchFallsThrough", "CtlLookupSearchFallsThrough"},
 		Run:      ruleCur7})
 }
 
@@ -48,6 +48,14 @@ var lkMemo = map[string][]lkKind{}
 func lkErrorKinds(c *Ctx, fn *ssa.Function, idx int) []lkKind {
 	key := fmt.Sprintf("%p/%d", fn, idx)
 	if r, ok := lkMemo[key]; ok {
+		return r
+	}
+	// a pure forwarder (a closure `func(m CursorMap) error { return m.Fetch(…) }`,
+	// a thin wrapper): its kinds — and its "not found" — are those of the callee
+	if h, ri, ok := lkForwardee(c, fn, idx); ok {
+		lkMemo[key] = nil // recursion guard
+		r := lkErrorKinds(c, h, ri)
+		lkMemo[key] = r
 		return r
 	}
 	set := map[string]*lkKind{}
@@ -148,6 +156,49 @@ func lkErrorKinds(c *Ctx, fn *ssa.Function, idx int) []lkKind {
 	return out
 }
 
+// lkForwardee: every return of fn yields, as result #idx, result #ri of one and
+// the same csvq callee h, and fn performs no lookup of its own.
+func lkForwardee(c *Ctx, fn *ssa.Function, idx int) (*ssa.Function, int, bool) {
+	if fn == nil || fn.Blocks == nil {
+		return nil, 0, false
+	}
+	var h *ssa.Function
+	ri := -1
+	rets := core.Returns(fn)
+	if len(rets) == 0 {
+		return nil, 0, false
+	}
+	for _, r := range rets {
+		if lkLookupFailedAt(r.Block()) {
+			return nil, 0, false
+		}
+		vals := core.ReturnOperand(r, idx)
+		if len(vals) == 0 {
+			return nil, 0, false
+		}
+		for _, v := range vals {
+			if v == nil {
+				return nil, 0, false
+			}
+			for _, o := range core.Origins(v, false) {
+				call, i, ok := core.ExtractOf(o)
+				if !ok {
+					return nil, 0, false
+				}
+				g := core.StaticCallee(call)
+				if g == nil || g.Blocks == nil || !(c.P.InPkg(g, "lib/query") || c.P.IsControl(g)) || core.AlwaysNonNil(g, i) {
+					return nil, 0, false
+				}
+				if h != nil && (h != g || ri != i) {
+					return nil, 0, false
+				}
+				h, ri = g, i
+			}
+		}
+	}
+	return h, ri, h != nil
+}
+
 // lkLookupFailedAt: the block is reached only when a comma-ok lookup / Exists
 // test of the function came out false.
 func lkLookupFailedAt(b *ssa.BasicBlock) bool {
@@ -221,8 +272,13 @@ func ruleCur7(c *Ctx) {
 			}
 			for _, in := range b.Instrs {
 				call, ok := in.(*ssa.Call)
-				if !ok || core.StaticCallee(call) == nil {
+				if !ok {
 					continue
+				}
+				if core.StaticCallee(call) == nil {
+					if prm, isPrm := call.Call.Value.(*ssa.Parameter); !isPrm || prm.Parent() != fn {
+						continue
+					}
 				}
 				hit := false
 				for _, a := range call.Call.Args {
@@ -253,7 +309,7 @@ func ruleCur7(c *Ctx) {
 		}
 		lkCheckCall(c, fn, loop, call)
 	}
-	c.negControls(start, "okLookupSentinelOnly", "okLookupNotFoundContinues", "okLookupBoolHit")
+	c.negControls(start, "okLookupSentinelOnly", "okLookupNotFoundContinues", "okLookupBoolHit", "okLookupSearch:")
 }
 
 func lkIsScopeMap(t types.Type) bool {
@@ -264,10 +320,73 @@ func lkIsScopeMap(t types.Type) bool {
 	return false
 }
 
+// lkCallees: the functions the per-element call may run: its static callee, or —
+// for a call of a function-typed parameter (the loop lives in a helper such as
+// searchCursor(name, fn)) — the closures / functions every caller passes.
+func lkCallees(c *Ctx, fn *ssa.Function, call *ssa.Call) (callees []*ssa.Function, unknown bool, name string) {
+	if g := core.StaticCallee(call); g != nil {
+		return []*ssa.Function{g}, false, g.Name()
+	}
+	prm, _ := call.Call.Value.(*ssa.Parameter)
+	idx := -1
+	for i, p := range fn.Params {
+		if p == prm {
+			idx = i
+		}
+	}
+	if idx < 0 {
+		return nil, true, "function value"
+	}
+	seen := map[*ssa.Function]bool{}
+	edges := scpCallers(c, fn, true)
+	if len(edges) == 0 {
+		unknown = true
+	}
+	for _, e := range edges {
+		args := e.Site.Common().Args
+		if idx >= len(args) {
+			unknown = true
+			continue
+		}
+		for _, o := range core.Origins(args[idx], false) {
+			var f *ssa.Function
+			switch x := o.(type) {
+			case *ssa.MakeClosure:
+				f, _ = x.Fn.(*ssa.Function)
+			case *ssa.Function:
+				f = x
+			}
+			if f == nil || f.Blocks == nil {
+				unknown = true
+				continue
+			}
+			if !seen[f] {
+				seen[f] = true
+				callees = append(callees, f)
+			}
+		}
+	}
+	sortFuncs(c.P, callees)
+	return callees, unknown, "function parameter " + prm.Name()
+}
+
 func lkCheckCall(c *Ctx, fn *ssa.Function, loop *core.Loop, call *ssa.Call) {
-	g := core.StaticCallee(call)
-	res := g.Signature.Results()
-	errIdx := core.ErrorResultIndex(g)
+	callees, unknownCallee, calleeName := lkCallees(c, fn, call)
+	res := call.Call.Signature().Results()
+	errIdx := -1
+	if res.Len() > 0 && core.IsErrorType(res.At(res.Len()-1).Type()) {
+		errIdx = res.Len() - 1
+	}
+	calleeDesc := calleeName
+	if len(callees) == 1 && !unknownCallee {
+		calleeDesc = c.P.Name(callees[0])
+	} else if len(callees) > 0 {
+		var ns []string
+		for _, f := range callees {
+			ns = append(ns, f.Name())
+		}
+		calleeDesc = calleeName + " (" + strings.Join(ns, ", ") + ")"
+	}
 	boolIdx := -1
 	for i := 0; i < res.Len(); i++ {
 		if b, ok := res.At(i).Type().Underlying().(*types.Basic); ok && b.Kind() == types.Bool {
@@ -285,8 +404,7 @@ func lkCheckCall(c *Ctx, fn *ssa.Function, loop *core.Loop, call *ssa.Call) {
 		}
 		return nil
 	}
-	callee := g.Name()
-	base := fmt.Sprintf("%s per block", callee)
+	base := fmt.Sprintf("%s per block", calleeName)
 	stop := map[*ssa.BasicBlock]bool{loop.Header: true}
 	from := core.InstrIndex(call) + 1
 
@@ -305,23 +423,56 @@ func lkCheckCall(c *Ctx, fn *ssa.Function, loop *core.Loop, call *ssa.Call) {
 			c.Bad(c.KeyAt(fn, base), c.Pos(call), "the error of the per-block lookup is discarded")
 			return
 		}
-		kinds := lkErrorKinds(c, g, errIdx)
+		// union of the kinds of every possible callee; per callee, a single non-nil
+		// kind is its "not declared here"
+		merged := map[string]*lkKind{}
+		addKind := func(k lkKind) {
+			if old, ok := merged[k.name]; ok {
+				old.notFound = old.notFound || k.notFound
+				if k.desc != "" && !strings.Contains(old.desc, k.desc) {
+					old.desc += ", " + k.desc
+				}
+				return
+			}
+			kk := k
+			merged[k.name] = &kk
+		}
+		for _, g := range callees {
+			ks := lkErrorKinds(c, g, errIdx)
+			nn := 0
+			for _, k := range ks {
+				if k.name != "nil" {
+					nn++
+				}
+			}
+			for _, k := range ks {
+				if k.name != "nil" && nn == 1 {
+					k.notFound = true
+				}
+				addKind(k)
+			}
+		}
+		if unknownCallee || len(callees) == 0 {
+			addKind(lkKind{name: "nil"})
+			addKind(lkKind{name: "other:false", desc: "errors of an unknown function value"})
+		}
+		var kinds []lkKind
+		for _, k := range merged {
+			kinds = append(kinds, *k)
+		}
+		sort.Slice(kinds, func(i, j int) bool { return kinds[i].name < kinds[j].name })
 		var nonNil []lkKind
 		nNotFound := 0
-		for _, k := range kinds {
-			if k.name != "nil" {
-				nonNil = append(nonNil, k)
-				if k.notFound {
+		for i := range kinds {
+			if kinds[i].name != "nil" {
+				nonNil = append(nonNil, kinds[i])
+				if kinds[i].notFound {
 					nNotFound++
 				}
 			}
 		}
-		if len(nonNil) == 1 {
-			nonNil[0].notFound = true
-			nNotFound = 1
-		}
 		if len(nonNil) > 1 && nNotFound == 0 {
-			c.Unknown(c.KeyAt(fn, base), c.Pos(call), fmt.Sprintf("%s can return %d kinds of error but none of them is returned where its own lookup failed: cannot tell which one means 'not declared here'", c.P.Name(g), len(nonNil)))
+			c.Unknown(c.KeyAt(fn, base), c.Pos(call), fmt.Sprintf("%s can return %d kinds of error but none of them is returned where its own lookup failed: cannot tell which one means 'not declared here'", calleeDesc, len(nonNil)))
 			return
 		}
 		// identity classes: one per sentinel global, -1 for everything else
@@ -407,14 +558,14 @@ func lkCheckCall(c *Ctx, fn *ssa.Function, loop *core.Loop, call *ssa.Call) {
 					if cl.desc != "" {
 						cl.name += " (" + cl.desc + ")"
 					}
-					bad = fmt.Sprintf("when %s reports %s — the block DECLARES the name but cannot serve the request — the loop goes on to the enclosing block: an outer object of the same name answers for the inner one (stale data instead of the error), or the error degrades to 'undeclared'. Only 'not declared here' may fall through", c.P.Name(g), cl.name)
+					bad = fmt.Sprintf("when %s reports %s — the block DECLARES the name but cannot serve the request — the loop goes on to the enclosing block: an outer object of the same name answers for the inner one (stale data instead of the error), or the error degrades to 'undeclared'. Only 'not declared here' may fall through", calleeDesc, cl.name)
 				} else {
 					bad = "a hit in this block does not leave the loop: an outer declaration of the same name is consulted although the inner one shadows it"
 				}
 			case cl.wantErr && p.ret != nil && retErrIdx >= 0:
 				if n, known := e.evalNil(scpNewFlowState(), p.err); !known || n {
 					if curErrKind(c, p.err, p.ret) != core.NonNil {
-						bad = fmt.Sprintf("when %s reports %s the method returns at %s with an error that may be nil", c.P.Name(g), cl.name, c.Pos(p.ret))
+						bad = fmt.Sprintf("when %s reports %s the method returns at %s with an error that may be nil", calleeDesc, cl.name, c.Pos(p.ret))
 					}
 				}
 			}
